@@ -492,7 +492,11 @@ func (g *gen) spine(d int, c gctx) *Form {
 		if len(cands) == 0 {
 			return g.spine(d, c)
 		}
-		return &Form{K: "ReturnFrom", N: cands[g.rng.Intn(len(cands))], C: g.spine(d-1, c)}
+		t := cands[g.rng.Intn(len(cands))]
+		if has(cands, 0) && g.rng.Chance(35) {
+			return &Form{K: "Return", C: g.spine(d-1, c)} // return.go is a file of its own
+		}
+		return &Form{K: "ReturnFrom", N: t, C: g.spine(d-1, c)}
 	case "lam":
 		n := g.pickN()
 		return &Form{K: "Lam", A: g.body(n, g.pickPos(n), d-1, same(c))}
